@@ -52,23 +52,23 @@ func ops() []op {
 }
 
 type model struct {
-	running, finished     bool
-	mouse                 tcell.MouseFlags
-	mouseSet              bool
-	paste, focus          bool
-	title                 string
+	running, finished bool
+	mouse             tcell.MouseFlags
+	mouseSet          bool
+	paste, focus      bool
+	title             string
 }
 
 type sys struct {
-	ti     *terminfo.Terminfo
-	alt    bool
-	tty    *common.FakeTty
-	term   *vt.Term
-	s      tcell.Screen
-	m      model
-	ops    []op
-	errSeen int
-	caps   struct{ mouse, paste, focus, title, saveTitle, cstyles, altscreen, keypad, civis, rmam bool }
+	ti       *terminfo.Terminfo
+	alt      bool
+	tty      *common.FakeTty
+	term     *vt.Term
+	s        tcell.Screen
+	m        model
+	ops      []op
+	errSeen  int
+	caps     struct{ mouse, paste, focus, title, saveTitle, cstyles, altscreen, keypad, civis, rmam bool }
 	preTitle string
 }
 
@@ -406,7 +406,9 @@ func (s *sys) Apply(i int) (sig, desc string) {
 	return "", ""
 }
 
-func isFamily(ti *terminfo.Terminfo) bool { return strings.HasPrefix(ti.SetCursor, "\x1b[%i%p1%d;%p2%dH") }
+func isFamily(ti *terminfo.Terminfo) bool {
+	return strings.HasPrefix(ti.SetCursor, "\x1b[%i%p1%d;%p2%dH")
+}
 
 func modeSignature(ti *terminfo.Terminfo) string {
 	b := func(s string) bool { return s != "" }
@@ -433,13 +435,22 @@ func resumeBeforeInit(e common.Entry) {
 		defer func() { perr = recover() }()
 		rerr = sc.Resume()
 	}()
+	// ... and Fini on it has nothing to finish (no panic, the Tty is not touched)
+	func() {
+		defer func() {
+			if x := recover(); x != nil && perr == nil {
+				perr = fmt.Sprintf("Fini: %v", x)
+			}
+		}()
+		sc.Fini()
+	}()
 	log := tty.LogCopy()
 	if perr != nil || rerr == nil || len(log) != 0 {
 		var calls []string
 		for _, l := range log {
 			calls = append(calls, l.String())
 		}
-		w.Violation("resume-before-init", fmt.Sprintf("%s: Resume() on a screen that was never initialized returned %v (panic %v) and made the Tty calls %v; it must be refused without touching the terminal", e.Name, rerr, perr, calls), nil)
+		w.Violation("resume-before-init", fmt.Sprintf("%s: Resume() and then Fini() on a screen that was never initialized: Resume returned %v, panic %v, Tty calls %v; Resume must be refused and neither call may touch the terminal or panic", e.Name, rerr, perr, calls), nil)
 	}
 }
 
